@@ -33,6 +33,9 @@ class Unencodable(object):
     def __getstate__(self):
         raise RuntimeError('unencodable by design')
 
+    def __deepcopy__(self, memo):  # copy.deepcopy (harness side) must work; only the serializer is refused
+        return self
+
 
 class Orig(object):
     """What an intercepted body returns when it is executed during a replay (only legal under run-original)."""
@@ -214,6 +217,9 @@ class NullRecorder(object):
     def force_sample_recording(self):
         pass
 
+    def disable_recording(self):
+        pass
+
 
 EXTRACTORS = {
     'dict': lambda: {'user_k': 1, 'user_s': 'ab'},
@@ -230,6 +236,12 @@ def _extractor(kind):
         RT.journal.append({'fn': '<extractor>', 'mode': RT.mode, 'args': (), 'kw': {}})
         if kind == 'raise':
             raise ValueError('extractor fails by design')
+        if kind == 'discard':   # user code running after the operation: must find the recorder idle already
+            RT.tr.discard_recording()
+            return {'user_k': 1, 'user_s': 'ab'}
+        if kind == 'force':
+            RT.tr.force_sample_recording()
+            return {'user_k': 1, 'user_s': 'ab'}
         return EXTRACTORS[kind]()
     return ext
 
@@ -322,6 +334,8 @@ def _perform(target, step, obs):
         RT.tr.discard_recording()
     elif do == 'force':
         RT.tr.force_sample_recording()
+    elif do == 'disable':
+        RT.tr.disable_recording()
     elif do == 'tick':
         RT.clock += step['d']
     elif do == 'val':
@@ -421,6 +435,7 @@ def _call(target, step, obs):
 def _interp(target, prog):
     obs = []
     RT.last_obs = obs
+    RT.last_end = None
     RT.tls.target = target
     for step in prog['steps']:
         _perform(target, step, obs)
@@ -495,7 +510,7 @@ class Env(object):
     """One recorder + spy cassette + operation class for a program family."""
 
     def __init__(self, inner=None, funcs=None, name='Op', kind='inst', ext=None, params=None, enabled=True, seed=None,
-                 save_raises=False, draws=None):
+                 save_raises=False, draws=None, sub=False):
         from playback.tape_recorder import TapeRecorder
         from playback.tape_cassettes.in_memory.in_memory_tape_cassette import InMemoryTapeCassette
         self.inner = inner if inner is not None else InMemoryTapeCassette()
@@ -507,6 +522,12 @@ class Env(object):
         if funcs:
             self.funcs.update(funcs)
         self.cls = build_class(self.tr, name, kind, ext, params, self.funcs)
+        if sub:  # the operation is invoked on a subclass of the decorated (and parametrised) class
+            base = self.cls
+            self.cls = type('Sub' + name, (base,), {})
+            self.cls.__module__ = __name__
+            self.cls.__qualname__ = 'Sub' + name
+            setattr(THIS, 'Sub' + name, self.cls)
         self.kind = kind
         self.draws = None
         if draws is not None:
@@ -548,7 +569,7 @@ def record(prog, env=None, **envkw):
     fresh = env is None
     if fresh:
         env = Env(name=prog.get('cls', 'Op'), kind=prog.get('kind', 'inst'), ext=prog.get('ext'), params=prog.get('params'),
-                  funcs=prog.get('funcs'), **envkw)
+                  funcs=prog.get('funcs'), sub=prog.get('sub', False), **envkw)
         RT.reset()
     env.bind()
     RT.mode = 'record'
@@ -625,7 +646,7 @@ def ref(prog, enabled=True, draw=None, save_raises=False, funcs=None):
     fs = dict(DEFAULT_FUNCS)
     fs.update(prog.get('funcs') or {})
     fs.update(funcs or {})
-    params = prog.get('params') or {}
+    params = (prog.get('params') or {}) if not prog.get('sub') else {}   # parameters are registered per exact class
     R = {'started': False, 'final': 'none', 'discarded': False, 'inputs': {}, 'outputs': {}, 'results': {}, 'op': None,
          'incomplete': None, 'exc_flag': None, 'bodies': [], 'draws': 0, 'unser': False, 'forced': False, 'ticks': 0.0,
          'user_meta': None, 'obs': None, 'outcome': None}
@@ -634,7 +655,7 @@ def ref(prog, enabled=True, draw=None, save_raises=False, funcs=None):
     else:
         started = True
     R['started'] = started
-    st = {'active': started, 'counter': Counter(), 'memo': {}}
+    st = {'active': started, 'counter': Counter(), 'memo': {}, 'enabled': True}
 
     def argv(step):
         return [mkval(n) for n in step.get('a', ())], {k: mkval(n) for k, n in step.get('k', {}).items()}
@@ -654,6 +675,8 @@ def ref(prog, enabled=True, draw=None, save_raises=False, funcs=None):
         elif do == 'force':
             if st['active'] and not params.get('ignore'):
                 R['forced'] = True
+        elif do == 'disable':
+            st['enabled'] = False
         elif do == 'tick':
             R['ticks'] += step['d']
         elif do == 'val':
@@ -690,7 +713,7 @@ def ref(prog, enabled=True, draw=None, save_raises=False, funcs=None):
     def call(step, obs, nested):
         spec = fs[step['fn']]
         args, kw = argv(step)
-        intercept = st['active'] and not nested
+        intercept = st['active'] and st['enabled'] and not nested
         key_ok = True
         n = None
         if intercept and spec['t'] == 'in':
@@ -742,6 +765,8 @@ def ref(prog, enabled=True, draw=None, save_raises=False, funcs=None):
             R['outcome'] = ('ret',)
             if st['active']:
                 R['op'] = ('v', obs_canon(obs))
+                if any(o[0] == 'ret' and isinstance(o[1], Unencodable) for o in obs):
+                    R['unser'] = True   # the operation's own result carries the value (captured or not)
         else:
             raise _RefExc(end.split(':')[1])
     except _RefExc as e:
@@ -770,7 +795,7 @@ def ref(prog, enabled=True, draw=None, save_raises=False, funcs=None):
                 R['incomplete'] = R['op'] is None
                 R['exc_flag'] = {'ret': False, 'raise': True}[R['outcome'][0]] if R['outcome'][1:] != ('Interrupt',) else None
                 ext = prog.get('ext')
-                R['user_meta'] = {'user_k': 1, 'user_s': 'ab'} if ext == 'dict' else {}
+                R['user_meta'] = {'user_k': 1, 'user_s': 'ab'} if ext in ('dict', 'discard', 'force') else {}
     return R
 
 
